@@ -46,12 +46,16 @@ inductive FsOp where
   deriving DecidableEq, Repr
 
 inductive MLeaf where
-  | sendControl | awaitPrevClosed | register | sleep | closeService | delEntry | unknown (s : String)
+  | sendControl | awaitPrevClosed | register | sleep | closeService | delEntry
+  | waitTurn      -- `if sid in registry or waiting[0] is not service: send CONTROL; await cond.wait_for(both false)`
+  | dequeue | refresh | notifyAll
+  | unknown (s : String)
   deriving DecidableEq, Repr
 
 /-- steps of `ServicesManager.create_service` / `clean_service_when_close_connection` -/
 inductive MEff where
   | construct
+  | enqueue       -- `waiting = self._waiting_dict.setdefault(sid, []); waiting.append(service)`
   | ifRegistered (b : List MLeaf)
   | locked (b : List MLeaf)
   | spawnCleanup | serve | awaitCleanup | awaitClosed
@@ -77,6 +81,7 @@ structure Program where
   fmCheckDir : List FsOp
   mgrCreate : List MEff
   mgrCleanup : List MEff
+  mgrLockIsCondition : Bool
   deriving DecidableEq, Repr
 
 /-! ### state -/
